@@ -63,8 +63,10 @@ CMB_THREAD_LOCAL struct cmi_mempool observer_tagpool
 
 /*
  * guard_queue_check - Test if heap_tag *a should go before *b. If so, return true.
- * Ranking higher priority (dsortkey) before lower, FIFO based on entry time,
- * then in key (memory address) order.
+ * Ranking higher priority (isortkey) before lower, FIFO based on entry time,
+ * then in order of arrival at this guard (item[3], see cmb_resourceguard_wait).
+ * Not by memory address: what a process gets would then depend on where the
+ * allocator happened to put it, i.e., on whatever ran earlier in the thread.
  */
 static bool guard_queue_check(const struct cmi_heap_tag *a,
                               const struct cmi_heap_tag *b)
@@ -86,7 +88,7 @@ static bool guard_queue_check(const struct cmi_heap_tag *a,
         return false;
     }
 
-    if (a->key < b->key) {
+    if ((uintptr_t)a->item[3] < (uintptr_t)b->item[3]) {
         return true;
     }
 
@@ -143,13 +145,16 @@ int64_t cmb_resourceguard_wait(struct cmb_resourceguard *rgp,
     struct cmb_process *pp = cmb_process_current();
     cmb_assert_release(pp != NULL);
 
+    /* The arrival number at this guard breaks ties among equal priority and time */
+    struct cmi_hashheap *hp = (struct cmi_hashheap *)rgp;
+    const uintptr_t arrival = (uintptr_t)(hp->item_counter + 1u);
     const double entry_time = cmb_time();
     const int64_t priority = cmb_process_priority(pp);
-    const uint64_t key = cmi_hashheap_enqueue((struct cmi_hashheap *)rgp,
+    const uint64_t key = cmi_hashheap_enqueue(hp,
                                               (void *)pp,
                                               (void *)demand,
                                               (void *)ctx,
-                                              NULL,
+                                              (void *)arrival,
                                               (uint64_t)pp,
                                               entry_time,
                                               priority);
